@@ -18,11 +18,20 @@ def check(pid, judge_module):
 def replay(run, path):
     """re-execute one recorded case alone and judge it again"""
     rec = json.load(open(path, encoding="utf-8"))
-    ev = run.run_one(rec["case"])
     obs = run.path("replay.obs")
+    if isinstance(rec["case"], dict) and "orig" in rec["case"]:
+        # a step of a command history: re-run the history, judge the same step
+        orig = rec["case"]["orig"]
+        full = run.run_one(orig)
+        with open(obs, "w", encoding="utf-8") as f:
+            f.write(json.dumps(full, ensure_ascii=False) + "\n")
+        events = [json.loads(l) for l in open(flatten_cli(run, obs, "replay-events.ndjson"), encoding="utf-8")]
+        ev = events[min(rec["case"].get("step", 0), len(events) - 1)]
+    else:
+        ev = run.run_one(rec["case"])
     with open(obs, "w", encoding="utf-8") as f:
         f.write(json.dumps(ev, ensure_ascii=False) + "\n")
-    flagged = run.judge(JUDGES[run.prop], obs)
+    flagged = run.judge(JUDGES[run.prop], obs, env={"KV_RULES": run.prop})
     print("case:     ", json.dumps(rec["case"], ensure_ascii=False))
     print("observed: ", json.dumps(ev.get("obs"), ensure_ascii=False), "panic:", ev.get("panic"))
     if flagged:
@@ -137,3 +146,73 @@ def c10(run):
         "every rule-violating mutant of the base documents (each fault kind at each line) and every generated "
         "non-conforming document: per reported error line/text/column/length bounds, ascending order, first error on the "
         "first non-conforming line (as computed by the recogniser KParse), and the terminal and JSON renderings of the same errors")
+
+
+def flatten_cli(run, obs_path, out_name="events.ndjson"):
+    """one event per executed step of every history: the file before is the observed file after the previous step"""
+    out = run.path(out_name)
+    n = 0
+    with open(obs_path, encoding="utf-8") as f, open(out, "w", encoding="utf-8") as g:
+        for line in f:
+            if not line.strip():
+                continue
+            rec = json.loads(line)
+            case, o = rec["case"], rec.get("obs", {})
+            fname = "f.klg"
+            pre = case["files"].get(fname, "")
+            steps = o.get("steps", [])
+            if rec.get("panic"):
+                st0 = case["cmds"][0]
+                ev = {"case": {"pre": pre, "cmd": st0["cmd"], "now": st0["nowv"], "cfg": st0["cfgv"], "args": st0["args"],
+                               "step": 0, "hist": [s["args"] for s in case["cmds"]], "orig": case},
+                      "obs": {}, "panic": rec["panic"], "site": rec.get("site", "")}
+                g.write(json.dumps(ev, ensure_ascii=False) + "\n")
+                n += 1
+                continue
+            for i, st in enumerate(steps):
+                cs = case["cmds"][i]
+                post = st["files"].get(fname, "")
+                parsed = st.get("parsed", {}).get(fname, {"ok": False, "records": []})
+                ev = {"case": {"pre": pre, "cmd": cs["cmd"], "now": cs["nowv"], "cfg": cs["cfgv"], "args": cs["args"],
+                               "step": i, "nofile": fname not in case["files"] and i == 0,
+                               "orig": case},
+                      "obs": {"post": post, "code": st["code"], "err": st["err"][:300], "touched": fname in st.get("touched", []),
+                              "parsed_ok": bool(parsed.get("ok")), "records": parsed.get("records", []),
+                              "repeat_equal": bool(o.get("repeat_equal", True)), "ticks_run": st.get("ticks_run", 0)},
+                      "panic": ""}
+                g.write(json.dumps(ev, ensure_ascii=False) + "\n")
+                n += 1
+                pre = post
+    return out
+
+
+def cli_family(run, rules, modes, rule_text):
+    flagged = []
+    for mode in modes:
+        cases, r = run.mc("MC_Cli", {"KV_MODE": mode}, out_name="cases-%s.ndjson" % mode)
+        obs = run.drive(cases, obs_name="obs-%s.ndjson" % mode)
+        events = flatten_cli(run, obs, "events-%s.ndjson" % mode)
+        flagged += run.judge("Trace_Cli", events, env={"KV_RULES": rules}, chunk=4000)
+    return vlib.finish(run, flagged, rule_text=rule_text)
+
+
+@check("C03", "Trace_Cli")
+def c03(run):
+    return cli_family(run, "C03", ["single", "pairs"], "seed files x every mutating command x parameters (single steps) and command pairs; "
+        "every executed step judged by TLC against the frame predicates of KReconcile")
+
+
+@check("C04", "Trace_Cli")
+def c04(run):
+    return cli_family(run, "C04", ["single", "pairs", "triples"], "every executed step of single commands, command pairs and triples "
+        "(the file written by one command is the input of the next) judged by TLC against the abstract command model KCli")
+
+
+@check("C05", "Trace_Cli")
+def c05(run):
+    return cli_family(run, "C05", ["single", "pairs"], "valid and invalid seed files x all mutating commands incl. failing parameters")
+
+
+@check("C11", "Trace_Cli")
+def c11(run):
+    return cli_family(run, "C11", ["single", "pairs"], "seed files with per-record style combinations x mutating commands x config")
